@@ -46,7 +46,7 @@ def run(ctx):
                 'one of 5-8 real Cedar policies: scope match/mismatch, when/unless, type/overflow/attr/tag/entity/extension errors, '
                 'non-boolean conditions) x {PolicySet, slice iterator, duplicate-id iterator}, plus random sequences of 5-40 policies; '
                 'non-trivial = at least one reason or error reported; ids, positions (file, offset, line, column) of every reason/error '
-                'checked against the policy they must name' % maxlen)
+                'checked against the policy they must name; plus every sequence of up to 3 (thorough: 4) when / unless clauses with true / false / erroring bodies' % maxlen)
     ctx.exhaustive = True
     if not (b.get('harness') and b.get('model')):
         ctx.violation('build failed: ' + '; '.join(o['name'] for o in ctx.broken_obligations()),
@@ -68,6 +68,33 @@ def run(ctx):
     for c in cases[:3] + cases[-2:]:
         ctx.sample(dict(case=c, go=go.get(lib.case_id(c))))
     ctx.oblige('correspondence: cedar.Authorize = model authorize on %d cases' % len(cases), 'correspondence', not mism)
+    # clause structure: a policy is satisfied iff ALL its when clauses hold and ALL its unless clauses fail, clauses evaluated in order,
+    # the first erroring clause reached makes the policy error.  Every sequence of <= 3 (4) clauses over {when, unless} x {true, false,
+    # error}, with 1-2 alternative bodies per outcome, as permit and as forbid, alone and next to a second policy.
+    import itertools as _it
+    import gen, sx
+    import props.c01 as c01
+    from gen import S, lit, case
+    store, req = c01.fixed_env()
+    C = ['var', 'context']
+    BODY = {'t': [lit(gen.vbool(True)), ['access', C, S('flag')], ['eq', ['access', C, S('n')], lit(gen.vlong(5))]],
+            'f': [lit(gen.vbool(False)), ['not', ['access', C, S('flag')]], ['in', ['var', 'principal'], lit(gen.vent('Group', 'zz'))]],
+            'e': [['access', C, S('missing')], ['eq', ['add', lit(gen.vlong(1)), lit(gen.vstr('a'))], lit(gen.vlong(1))], lit(gen.vlong(7))]}
+    ccases = []
+    k = 0
+    maxc = 3 if ctx.tier == 'quick' else 4
+    for ln in range(1, maxc + 1):
+        for combo in _it.product([(w, o) for w in ('when', 'unless') for o in 'tfe'], repeat=ln):
+            for eff in ('permit', 'forbid'):
+                conds = ['conds'] + [[w, ctx.rng.choice(BODY[o])] for (w, o) in combo]
+                pol = ['policy', S('p0'), eff, ['all'], ['all'], ['all'], conds]
+                other = ['policy', S('p1'), 'permit' if eff == 'forbid' else ctx.rng.choice(['permit', 'forbid']), ['all'], ['all'], ['all'],
+                         ['conds'] + ([[ctx.rng.choice(['when', 'unless']), ctx.rng.choice(BODY[ctx.rng.choice('tf')])]] if ctx.rng.random() < 0.5 else [])]
+                k += 1
+                ccases.append(case('c%d' % k, 'authz', store, req, ['policies', pol] + ([other] if k % 2 else [])))
+    go2, mo2, mism2 = lib.differential(ctx, ccases, 'authz', describe='cedar.Authorize disagrees with the model on a policy with several when / unless clauses')
+    ctx.oblige('correspondence: cedar.Authorize = model on %d policies covering every sequence of <= %d when / unless clauses x {true, false, error}' % (len(ccases), maxc),
+               'correspondence', not mism2)
     broken = [o for o in ctx.broken_obligations() if o['kind'] in ('theorem', 'build', 'hygiene', 'translator')]
     if broken and not ctx.violations:
         ctx.violation('proof obligations no longer check: ' + '; '.join(o['name'] for o in broken),
